@@ -267,6 +267,46 @@ def _expand_entries(entries: Dict[str, List[Any]], mode: str) -> List[Dict[str, 
         raise ConfigurationError(f"Unknown expansion mode '{mode}'")
 
 
+def _entries_size(entries: Dict[str, List[Any]], mode: str) -> int | None:
+    """Number of runs ``_expand_entries`` would produce, computed from lengths only.
+
+    Returns ``None`` when the size is not defined (no entries, or invalid input
+    that ``_expand_entries`` will reject with a descriptive error).
+    """
+    if not entries:
+        return None
+    lengths = [len(values) for values in entries.values()]
+    if mode == "by_position":
+        return lengths[0] if len(set(lengths)) == 1 else None
+    if mode == "combinatorial":
+        size = 1
+        for length in lengths:
+            size *= length
+        return size
+    return None
+
+
+def _planned_block_size(
+    mode: str,
+    context_entries: Dict[str, List[Any]],
+    source_entries: Dict[str, List[Any]],
+    source_mode: str,
+) -> int | None:
+    """Size of a block computed arithmetically (``None`` if the block is invalid)."""
+    ctx_n = _entries_size(context_entries, mode)
+    src_n = _entries_size(source_entries, source_mode)
+    if (context_entries and ctx_n is None) or (source_entries and src_n is None):
+        return None
+    if mode == "by_position":
+        sizes = [n for n in (ctx_n, src_n) if n is not None]
+        if sizes and len(set(sizes)) != 1:
+            return None
+        return sizes[0] if sizes else 0
+    if mode == "combinatorial":
+        return (1 if ctx_n is None else ctx_n) * (1 if src_n is None else src_n)
+    return None
+
+
 def _load_and_process_source(
     src: RunSource, base_dir: Path
 ) -> Tuple[Dict[str, List[Any]], Dict[str, Any]]:
@@ -366,7 +406,11 @@ def expand_run_space(
     block_meta = []
     seen_keys: set[str] = set()
 
-    # Process each block
+    # Pass 1: load sources, validate keys and plan sizes arithmetically so that
+    # the max_runs cap is applied before anything is materialised.
+    prepared = []
+    planned_sizes: List[int | None] = []
+    planned_keys: set[str] = set()
     for index, block in enumerate(spec.blocks):
         context_entries = {key: list(values) for key, values in block.context.items()}
         source_entries: Dict[str, List[Any]] = {}
@@ -382,6 +426,34 @@ def expand_run_space(
                 raise ConfigurationError(
                     f"Duplicate context key(s) within block (context vs source): {sorted(duplicate_keys)!r}"
                 )
+        prepared.append((context_entries, source_entries, source_meta))
+        source_mode = block.source.mode if block.source else block.mode
+        planned_sizes.append(
+            _planned_block_size(block.mode, context_entries, source_entries, source_mode)
+        )
+        block_keys = set(context_entries) | set(source_entries)
+        if planned_keys.intersection(block_keys):
+            planned_sizes[-1] = None  # rejected below with the descriptive error
+        planned_keys.update(block_keys)
+
+    if planned_sizes and all(size is not None for size in planned_sizes):
+        known_sizes = [size for size in planned_sizes if size is not None]
+        planned_total: int | None = None
+        if spec.combine == "combinatorial":
+            planned_total = 1
+            for size in known_sizes:
+                planned_total *= size
+        elif spec.combine == "by_position" and len(set(known_sizes)) == 1:
+            planned_total = known_sizes[0]
+        if planned_total is not None and planned_total > spec.max_runs:
+            raise RunSpaceMaxRunsExceededError(
+                actual_runs=planned_total,
+                max_runs=spec.max_runs,
+            )
+
+    # Pass 2: materialise each block
+    for index, block in enumerate(spec.blocks):
+        context_entries, source_entries, source_meta = prepared[index]
 
         # Combine context and source based on block mode
         if block.mode == "by_position":
